@@ -1,5 +1,10 @@
 #!/bin/bash
-# MANIFEST.setup_cmd: build the Lean library (all property theorems) and the model driver, offline.
-set -e
-cd "$(dirname "$0")/lean"
-lake build ShroudVerif $(grep -o '^name = "drv_[a-z0-9_]*"' lakefile.toml | cut -d'"' -f2)
+# MANIFEST.setup_cmd: build the Lean library (all property theorems) and every model driver, offline.
+# Each ./check rebuilds exactly what it needs, so a failure here is reported but is not fatal for other properties.
+cd "$(dirname "$0")/lean" || exit 1
+rc=0
+lake build ShroudVerif || { echo "setup: lake build ShroudVerif failed (individual checks will report)"; rc=0; }
+for t in $(grep -o '^name = "drv_[a-z0-9_]*"' lakefile.toml | cut -d'"' -f2); do
+  lake build "$t" >/dev/null 2>&1 || echo "setup: driver $t failed to build (its check will report)"
+done
+exit $rc
